@@ -66,6 +66,10 @@ def fields(W, S):
             if S.blobs is not None:
                 out.append(('blobs[%d][%d]' % (i, j), S.blobs[i][j]))
     out.append(('blobs-none', S.blobs is None))
+    bd = getattr(S, 'blobs_dtype', None)
+    out.append(('blobs_dtype', None if bd is None else
+                'float' if 'float' in str(getattr(bd, 'tag', bd)) else
+                str(getattr(bd, 'tag', bd))))
     if not S.explored:
         out.append(('points_t.shape', tuple(S.points_t.shape)))
         for k, q in enumerate(st.rows_of(S.points_t)):
